@@ -55,7 +55,19 @@ def classify_instability(lang, o1, o2):
         if ["".join(l.split()) for l in l1] == ["".join(l.split()) for l in l2]:
             d = [(a, b) for a, b in zip(l1, l2) if a != b]
             if not d:
-                return "blank-lines-or-indentation"
+                # same stripped lines: blank lines or leading whitespace differ -- of which kind of line?
+                r1 = [l for l in o1.decode("latin1").split("\n")]
+                r2 = [l for l in o2.decode("latin1").split("\n")]
+                n1 = [l for l in r1 if l.strip()]
+                n2 = [l for l in r2 if l.strip()]
+                ind = [(a, b) for a, b in zip(n1, n2) if a != b]
+                if not ind:
+                    return "blank-lines"
+                if all(a.strip().startswith(("/*", "//", "*")) for a, b in ind):
+                    return "indentation-of-comment-lines"
+                if all(a.strip().startswith("#") for a, b in ind):
+                    return "indentation-of-preprocessor-lines"
+                return "indentation-of-code-lines"
             if all(("/*" in a or "//" in a) for a, b in d):
                 return "gap-before-comment"
             return "spacing-inside-line"
